@@ -277,7 +277,7 @@ func (c06) Run(raw json.RawMessage) Result {
 	}
 	src := exprSource(c.Toks)
 	o := exprEval(src)
-	coq := coqlit.Record("c_toks", exprToksCoq(c.Toks), "c_orc", exprOracles(c.Toks), "c_obs", o.coq)
+	coq := coqlit.Record("c_toks", exprToksCoq(c.Toks), "c_src", coqlit.Bytes(src), "c_orc", exprOracles(c.Toks), "c_obs", o.coq)
 	nops := exprCountOps(c.Toks)
 	class := "ops" + fmt.Sprint(min(nops, 9)/3*3) + "+/depth" + fmt.Sprint(exprDepth(c.Toks))
 	if o.Kind == 1 {
